@@ -300,6 +300,8 @@ func (c05) Bounds(tier string) map[string]interface{} {
 
 var c05RemoteCases func(tier string, emit func(string, interface{}))
 var c05RunRemote func(c core.Case) core.Outcome
+var c05PathsCases func(tier string, emit func(string, interface{}))
+var c05RunPaths func(c core.Case) core.Outcome
 
 func (c05) Cases(tier string, emit func(string, interface{})) {
 	for _, gc := range c05Graphs(tier) {
@@ -307,6 +309,9 @@ func (c05) Cases(tier string, emit func(string, interface{})) {
 	}
 	if c05RemoteCases != nil {
 		c05RemoteCases(tier, emit)
+	}
+	if c05PathsCases != nil {
+		c05PathsCases(tier, emit)
 	}
 }
 
@@ -529,6 +534,9 @@ func graphKey(gc graphCase) string {
 func (c05) Run(c core.Case) core.Outcome {
 	if c.Kind == "remote" {
 		return c05RunRemote(c)
+	}
+	if c.Kind == "paths" {
+		return c05RunPaths(c)
 	}
 	var gc graphCase
 	_ = json.Unmarshal(c.Data, &gc)
